@@ -28,7 +28,7 @@ Failed(e) ==
   \cup (IF e.kind = "session" /\ e.want_exit \in {0, 1} /\ e.in_step_expected /\ ~(e.replies_c = e.want_replies_c) THEN {"out-of-step"} ELSE {})
   \cup (IF e.kind = "cut" /\ ~CutOK(e.replies_c, e.want_replies_c) THEN {"cut-replies-not-a-prefix"} ELSE {})
 
-Conform(e) == e.kind # "session" \/ (e.replies = e.want_replies /\ e.exit = e.want_exit /\ e.f = e.want_f /\ e.conf = e.want_conf)
+Conform(e) == e.kind # "session" \/ (e.replies_c = e.want_replies_c /\ e.exit = e.want_exit /\ e.f = e.want_f /\ e.conf = e.want_conf)
 
 Init == l = 1 /\ bad = {} /\ nonconf = {}
 Next == /\ l <= Len(Recs)
